@@ -481,8 +481,11 @@ def r4(ctx, rule="C14.R4"):
 def r5(ctx):
     P = ctx.project
     f = P.func(T2A)
-    stack_calls = [c for c in ast.walk(f.node) if isinstance(c, ast.Call) and dotted(c.func) == "stack_operator"
-                   and c.args and norm(c.args[0]) == "operator"]
+    # sites where a candidate operator is pushed: through the helper, or written out
+    stack_calls = [c for c in walk_no_nested(f.node) if isinstance(c, ast.Call) and (
+        (dotted(c.func) == "stack_operator" and c.args and norm(c.args[0]) == "operator")
+        or (norm(c.func) == "operator_stack.append" and c.args and isinstance(c.args[0], ast.Call) and dotted(c.args[0].func) == "OrderedOperator"
+            and c.args[0].args and norm(c.args[0].args[0]) == "operator"))]
     ctx.floor("C14.R5", len(stack_calls), 1, "stack_operator(operator, …) calls")
     for c in stack_calls:
         ctx.look()
